@@ -247,8 +247,9 @@ def run_with_faults(sched_seed: int, prog: Any, db_path: str, session: enginea.P
     return res, faults
 
 
-def subvalue_link_violations(db_path: str) -> list[tuple]:
-    """Every recorded (non-error) value that has subvalues is linked to exactly those."""
+def subvalue_link_violations(db_path: str, only: Optional[set] = None) -> list[tuple]:
+    """Every recorded (non-error) value that has subvalues is linked to exactly those.
+    `only`: restrict the audit to these value hashes (e.g. the values an execution recorded)."""
     from .dbview import DbView
 
     view = DbView(db_path)
@@ -261,6 +262,8 @@ def subvalue_link_violations(db_path: str) -> list[tuple]:
             subs.setdefault(s["parent_value_hash"], set()).add(s["value_hash"])
         for row in view.rows("value"):
             if row["type"] in ("redun.ErrorValue", "redun.Traceback"):
+                continue
+            if only is not None and row["value_hash"] not in only:
                 continue
             try:
                 value, ok = backend.get_value(row["value_hash"])
